@@ -89,7 +89,11 @@ def _cor(case, bad):
         for sc in scripts:
             desc = "columns=%r model=%s draws=%d split script (train rows)=%r" % (cols, case["model"], case["draws"], sc)
             res = {}
-            for kind, data in (("array", arr), ("frame", frame)):
+            variants = [("array", arr), ("frame", frame)]
+            if (arr == numpy.round(arr)).all():
+                variants.append(("int array", arr.astype(numpy.int64)))      # same table, integer dtype
+                variants.append(("int frame", frame.astype(numpy.int64)))
+            for kind, data in variants:
                 data0 = data.copy()
                 if has_seam:
                     mod.train_test_split = _Scripted(sc)
@@ -107,7 +111,7 @@ def _cor(case, bad):
                     res = None
                     break
                 cnt += 1
-                same_in = data.equals(data0) if kind == "frame" else numpy.array_equal(data, data0)
+                same_in = data.equals(data0) if kind.endswith("frame") else numpy.array_equal(data, data0)
                 if not same_in:
                     bad("input modified", cond, desc)
                 if not (isinstance(out, tuple) and len(out) == 3):
@@ -126,7 +130,7 @@ def _cor(case, bad):
                         bad("entry outside [0, 1]", cond, "%s=%r %s" % (nm, m.tolist(), desc))
                 if (mats[1] > mats[0] + 1e-12).any() or (mats[0] > mats[2] + 1e-12).any():
                     bad("min <= mean <= max violated", cond, "mean=%r min=%r max=%r %s" % (mats[0].tolist(), mats[1].tolist(), mats[2].tolist(), desc))
-                if kind == "frame":
+                if kind.endswith("frame"):
                     for m in out:
                         if not hasattr(m, "columns") or list(m.columns) != list(frame.columns) or list(m.index) != list(frame.columns):
                             bad("frame result does not keep the labels", cond, desc)
@@ -139,11 +143,12 @@ def _cor(case, bad):
                         if learnable and abs(mats[0][i, i] - 1) > 1e-7:
                             bad("diagonal != 1 for a model able to learn the identity", cond,
                                 "column %s diagonal %r %s" % (c, mats[0][i, i], desc))
-            if res and "array" in res and "frame" in res:
-                for a, b in zip(res["array"], res["frame"]):
-                    if not numpy.allclose(a, b, rtol=0, atol=1e-12):
-                        bad("frame and array results differ under the same split", cond, "%r vs %r %s" % (a.tolist(), b.tolist(), desc))
-                        break
+            if res and "array" in res:
+                for other in [k_ for k_ in res if k_ != "array"]:
+                    for a, b in zip(res["array"], res[other]):
+                        if not numpy.allclose(a, b, rtol=0, atol=1e-12):
+                            bad("%s and array results differ under the same split" % other, cond, "%r vs %r %s" % (a.tolist(), b.tolist(), desc))
+                            break
     finally:
         if has_seam:
             mod.train_test_split = orig
